@@ -13,6 +13,7 @@ from .common import EXIT_HARNESS, EXIT_OK, EXIT_VIOLATION
 REGISTRY = {
     "C01": ("A", "vf.harness.C01"),
     "C04": ("A", "vf.harness.C04"),
+    "C05": ("A", "vf.harness.C05"),
     "C07": ("A", "vf.harness.C07", "vf.engine_b.c07"),
     "C08": ("A", "vf.harness.C08"),
     "C09": ("A", "vf.harness.C09"),
